@@ -11,7 +11,7 @@ CONSTANTS KeyLen, Base, Hosts,
           ValsA, ValsB,      \* values inserted into A / B (distinct, so that sides cannot be confused)
           ActsA, ActsB,      \* mutator alphabets
           PairActs,          \* pair observers to evaluate
-          MaxCountA, MaxCountB,
+          MaxCountA, MaxCountB, MaxNodesA, MaxNodesB,
           EmitActs
 
 VARIABLES mA, mB, absA, absB, ev, ret, histA, histB
@@ -52,7 +52,8 @@ Obs == \E e \in PairEvs :
 Next == StepA \/ StepB \/ Obs
 
 View == <<Tree(mA), Tree(mB)>>
-Bound == Cardinality(absA) <= MaxCountA /\ Cardinality(absB) <= MaxCountB
+Bound == /\ Cardinality(absA) <= MaxCountA /\ Cardinality(absB) <= MaxCountB
+         /\ Cardinality(Reach(mA)) <= MaxNodesA /\ Cardinality(Reach(mB)) <= MaxNodesB
 
 InvRefines == Entries(mA) = absA /\ Entries(mB) = absB
 InvWF == WF(mA) /\ WF(mB)
